@@ -275,7 +275,7 @@ def _kpm_case(rng, counters):
         atol = 1e-10
     aux = (not top) and rng.random() < 0.4
     if aux:
-        opts["auxiliary_vectors"] = V[:, ka:ka + 2]
+        opts["auxiliary_vectors"] = V[:, [ka + 1, ka] if rng.random() < 0.5 else [ka, ka + 1]]  # any order
     h0 = sparse.csr_array(H0) if rng.random() < 0.5 else H0
     with warnings.catch_warnings(record=True) as wlist:
         warnings.simplefilter("always")
